@@ -178,13 +178,19 @@ class _ExactLanguageSearch:
             to_parse = original
 
         parser = DateDataParser(languages=languages, settings=settings)
-        parsed, substrings = self.parse_found_objects(
-            parser=parser,
-            to_parse=to_parse,
-            original=original,
-            translated=translated,
-            settings=settings,
-        )
+        # parse_item overrides RELATIVE_BASE on the parser's settings object, which is
+        # shared with every other call made with the same settings: undo it afterwards
+        original_relative_base = parser._settings.RELATIVE_BASE
+        try:
+            parsed, substrings = self.parse_found_objects(
+                parser=parser,
+                to_parse=to_parse,
+                original=original,
+                translated=translated,
+                settings=settings,
+            )
+        finally:
+            parser._settings.RELATIVE_BASE = original_relative_base
         parser._settings = Settings()
         return list(zip(substrings, [i[0]["date_obj"] for i in parsed]))
 
